@@ -159,6 +159,12 @@ def reference_mask(seed, K, F, T, kind):
         if kind == 'near_equal' and K >= 2:
             m[1] = m[0]
             m[1, :, 0] += 1e-9
+        if kind == 'long_tail' and K >= 2:
+            # two classes that are equal in the first 90 % of the frames and differ in the tail only
+            m[1, :, : (9 * T) // 10] = m[0, :, : (9 * T) // 10]
+        if kind == 'weak' and K >= 3:
+            # all classes but the first are more than 40 dB below the first one (distinct activity patterns)
+            m[1:] *= 0.005
         okk = True
         for f in range(F):
             rows = R.normalise_rows(m[:, f])
@@ -167,7 +173,7 @@ def reference_mask(seed, K, F, T, kind):
                     if kind == 'near_equal' and (a, b) == (0, 1):
                         continue
                     if (T > 1 and np.linalg.norm(rows[a] - rows[b]) < 0.05) or \
-                            np.linalg.norm(m[a, f] - m[b, f]) < 0.05:
+                            (kind != 'weak' and np.linalg.norm(m[a, f] - m[b, f]) < 0.05):
                         okk = False
         if okk:
             return m
@@ -206,7 +212,7 @@ def run_fields(key):
         mapping_in = np.array([perms[p] for p in fld]).T       # (K, F)
         mask = R.apply_mapping_loop(ref, mapping_in)
         for metric in metrics:
-            if metric == 'multiply' and kind == 'binaryish':
+            if metric == 'multiply' and kind in ('binaryish', 'weak'):
                 continue   # un-normalised inner products do not identify rows of different energy
             for alg in ('greedy', 'optimal'):
                 al = pa.OraclePermutationAlignment(similarity_metric=metric, algorithm=alg)
@@ -361,6 +367,11 @@ def subchecks(tier, seed):
                         yield (K, F, T, kind, 'all', seed)
         for kind in ('generic', 'near_equal'):
             yield (4, 5, 3, kind, 'two_bins', seed)
+        for T in (5000, 4097, 9000):
+            yield (3, 3, T, 'long_tail', 'two_bins', seed)
+        for T in (3, 8):
+            yield (3, 3, T, 'weak', 'all', seed)
+            yield (4, 3, T, 'weak', 'two_bins', seed)
     subs.append(Sub('permutation_fields', ('K', 'F', 'T', 'kind', 'fields', 'seed'), field_cases, run_fields,
                     bound=dict(fields='all K!^F for K,F<=3; K=4,F=5: <=2 non-identity bins')))
 
